@@ -12,7 +12,7 @@ from __future__ import annotations
 import ast
 from typing import List, Optional, Set
 
-from ..astq import assignments, calls, params, stmts
+from ..astq import assignments, calls, kwarg, params, stmts
 from ..callgraph import fkey
 from ..cfg import CFG, cond_atoms
 from ..report import Check
@@ -38,6 +38,33 @@ def run(chk: Check, proj: Project) -> None:
     s5_accessors(chk, proj, ["STATIC_FILES_ALLOWED", "STATIC_FILES_FORBIDDEN", "DIRS", "APP_DIRS"])
     s6_raw_settings_forms(chk, proj)
     s7_same_path_kind(chk, proj)
+    s8_one_filter_judged_now(chk, proj)
+
+
+def s8_one_filter_judged_now(chk: Check, proj: Project) -> None:
+    chk.rule("S8", "the exposed set is decided by _is_path_valid ALONE and on the tree as it is NOW: list() hands Django's walker the caller's ignore patterns unchanged (ignore patterns are globs that also prune DIRECTORIES), and the finder's constructor - which Django runs once and caches for the process - does not test the file system")
+    m, f = proj.func("finders", "ComponentsFileSystemFinder.list")
+    chk.analysed(fkey(m, f))
+    ip = params(f)[1] if len(params(f)) > 1 else "ignore_patterns"
+    gf = [c for c in calls(f) if last_attr(c.func) == "get_files"]
+    if not gf:
+        chk.undecided("S8", "finders:list:walker-gets-callers-ignore-patterns", m.loc(f), "get_files(...) call not found")
+    for c in gf:
+        arg = c.args[1] if len(c.args) > 1 else kwarg(c, "ignore_patterns")
+        ok = arg is not None and norm(arg) == ip and len(assignments(f, ip)) == 0
+        chk.ob("S8", "finders:list:walker-gets-callers-ignore-patterns", m.loc(c), ok,
+               f"get_files(storage, {ip}) - the caller's patterns, nothing added" if ok else
+               f"`{short(c)}` adds patterns of its own to the walk: ignore patterns are fnmatch globs applied to DIRECTORY names too, so an allowed file inside a directory named like `legacy.py/` or `mail.html/` vanishes from list() / collectstatic while find() still serves it (and a suffix with glob metacharacters hides look-alike names)")
+    r = proj.try_func("finders", "ComponentsFileSystemFinder.__init__")
+    if r is None:
+        chk.undecided("S8", "finders:__init__:no-file-system-test-at-construction", m.loc(f), "__init__ not found")
+    else:
+        im, init = r
+        chk.analysed(fkey(im, init))
+        fs = [c for c in calls(init) if (dotted(c.func) or "").startswith(("os.path.isdir", "os.path.exists", "os.path.isfile", "os.listdir", "os.scandir")) or (isinstance(c.func, ast.Attribute) and c.func.attr in ("is_dir", "exists", "is_file", "iterdir"))]
+        chk.ob("S8", "finders:__init__:no-file-system-test-at-construction", im.loc(fs[0]) if fs else im.loc(init), not fs,
+               "the constructor only records the configured directories; whether one exists is asked when files are listed / found" if not fs else
+               f"`{short(enclosing_stmt(fs[0]))}` decides at construction which directories take part, and Django creates the finder once per process (get_finder is memoised): a component directory that is created later is exposed by neither list() nor find() until the process restarts")
 
 
 def s7_same_path_kind(chk: Check, proj: Project) -> None:
